@@ -360,9 +360,41 @@ func (r *rewriter) rewriteFile(f *ast.File) {
 			}
 		}
 	}
+	if r.pkg == "pkg/server/service/leader" {
+		r.liftOnStartedLeading(f)
+	}
 	if r.used {
 		addImport(f, "vrt", rtPath+"vrt")
 	}
+}
+
+// liftOnStartedLeading makes the production "become leader" code callable without client-go's
+// real-time elector: the function literal given as LeaderCallbacks.OnStartedLeading inside a
+// method is copied into a method VerifOnStartedLeading of the same receiver.
+func (r *rewriter) liftOnStartedLeading(f *ast.File) {
+	var add []ast.Decl
+	for _, d := range f.Decls {
+		fd, ok := d.(*ast.FuncDecl)
+		if !ok || fd.Recv == nil || fd.Body == nil {
+			continue
+		}
+		ast.Inspect(fd.Body, func(n ast.Node) bool {
+			kv, ok := n.(*ast.KeyValueExpr)
+			if !ok {
+				return true
+			}
+			id, ok := kv.Key.(*ast.Ident)
+			fl, ok2 := kv.Value.(*ast.FuncLit)
+			if !ok || !ok2 || id.Name != "OnStartedLeading" {
+				return true
+			}
+			c := r.clone(fl).(*ast.FuncLit)
+			add = append(add, &ast.FuncDecl{Recv: fd.Recv, Name: ast.NewIdent("VerifOnStartedLeading"), Type: c.Type, Body: c.Body})
+			r.notes = append(r.notes, "lifted OnStartedLeading from "+fd.Name.Name)
+			return false
+		})
+	}
+	f.Decls = append(f.Decls, add...)
 }
 
 func addImport(f *ast.File, name, path string) {
